@@ -497,6 +497,15 @@ func (x *Exec) evalField(env *SpecEnv, e EField) Val {
 	if t == nil {
 		panic(specErr("field of untyped value in %s", e.exprString()))
 	}
+	if _, isIface := t.Underlying().(*types.Interface); isIface {
+		// ghost field of an interface value
+		name := types.TypeString(t, func(p *types.Package) string { return p.Name() })
+		if is, ok := x.DB.Ifaces[name]; ok {
+			a := x.ghostAddr(is, e.Name, base)
+			return Val{T: x.loadAddr(env.cur, a), Typ: a.T}
+		}
+		panic(specErr("no interface specification for %s (ghost field %s)", name, e.Name))
+	}
 	if base.Addr == nil && base.T.Sort == "Slice" && e.Name == "$ref" {
 		return Val{T: Term{app("s_ref", base.T), "Int"}, Typ: types.Typ[types.Int]}
 	}
